@@ -714,7 +714,81 @@ fn file_and_writer(mode: ModeK) -> Result<(), Fail> {
     Ok(())
 }
 
+/// The path of the log file is a symbolic link (to a file in another directory): W W, the link is
+/// renamed externally, reopen_output(), W W, shutdown - the first two records are in the file the
+/// link points to, the last two in a new regular file at the original path.
+fn symlinked_file(mode: ModeK) -> Result<(), Fail> {
+    let env = Env::new("c18s");
+    env.enter();
+    let real_dir = env.root.path().join("elsewhere");
+    std::fs::create_dir_all(&real_dir).ok();
+    let real = real_dir.join("t.log");
+    std::fs::write(&real, b"").ok();
+    let path = env.dir.join("app.log");
+    std::os::unix::fs::symlink(&real, &path).map_err(|e| Fail {
+        clause: "machinery",
+        at: 0,
+        detail: e.to_string(),
+    })?;
+    let (logger, handle) = flexi_logger::Logger::with(flexi_logger::LogSpecification::trace())
+        .log_to_file(flexi_logger::FileSpec::default().directory(&env.dir).basename("app").suppress_timestamp())
+        .append()
+        .format(lg::payload_format)
+        .write_mode(mode.write_mode())
+        .error_channel(flexi_logger::ErrorChannel::File(env.err.clone()))
+        .build()
+        .map_err(|e| Fail {
+            clause: "build-error",
+            at: 0,
+            detail: e.to_string(),
+        })?;
+    let msgs: Vec<String> = (0..4).map(|i| lg::payload(0, i, 8)).collect();
+    lg::log_info(&*logger, &msgs[0]);
+    lg::log_info(&*logger, &msgs[1]);
+    std::fs::rename(&path, env.dir.join("app.moved")).map_err(|e| Fail {
+        clause: "machinery",
+        at: 2,
+        detail: e.to_string(),
+    })?;
+    let r = handle.reopen_output();
+    lg::log_info(&*logger, &msgs[2]);
+    lg::log_info(&*logger, &msgs[3]);
+    handle.shutdown();
+    drop(logger);
+    drop(handle);
+    env.leave();
+    if let Err(e) = r {
+        return Err(Fail {
+            clause: "reopen-error",
+            at: 3,
+            detail: e.to_string(),
+        });
+    }
+    let old = String::from_utf8_lossy(&std::fs::read(&real).unwrap_or_default()).to_string();
+    let new = String::from_utf8_lossy(&std::fs::read(&path).unwrap_or_default()).to_string();
+    let regular = std::fs::symlink_metadata(&path).is_ok_and(|m| m.is_file());
+    if old != format!("{}\n{}\n", msgs[0], msgs[1]) || new != format!("{}\n{}\n", msgs[2], msgs[3]) || !regular {
+        return Err(Fail {
+            clause: "file-content!=model",
+            at: 5,
+            detail: format!("the log file path is a symbolic link; W W [link renamed] reopen_output W W: the file the link pointed to holds {old:?}, the file at the original path (regular: {regular}) {new:?}"),
+        });
+    }
+    Ok(())
+}
+
 fn run_unit(tier: &str, unit: usize, out: &mut Out) {
+    if unit < modes().len() {
+        let mode = modes()[unit];
+        out.evaluations += 1;
+        let case = json!({"symlinked_file": unit});
+        match run_isolated(Duration::from_secs(30), move || symlinked_file(mode)) {
+            Ran::Done(Ok(())) => {}
+            Ran::Done(Err(f)) => out.violation(Violation::new(f.clause, format!("Reopen/{}/symlinked-log-file", super::c08::mode_class(mode)), format!("mode={mode:?}: {}", f.detail), case)),
+            Ran::Panicked(m) => out.violation(Violation::new("panic", "symlinked-log-file", m, case)),
+            Ran::Hung => out.violation(Violation::new("hang", "symlinked-log-file", String::new(), case)),
+        }
+    }
     if unit < modes().len() {
         let mode = modes()[unit];
         out.evaluations += 1;
@@ -765,6 +839,16 @@ fn run_unit(tier: &str, unit: usize, out: &mut Out) {
 }
 
 fn replay(case: &Value) -> Vec<Violation> {
+    if let Some(u) = case["symlinked_file"].as_u64() {
+        let mode = modes()[(u as usize).min(modes().len() - 1)];
+        println!("replay C18: the log file path is a symbolic link, mode {mode:?}");
+        return match run_isolated(Duration::from_secs(30), move || symlinked_file(mode)) {
+            Ran::Done(Ok(())) => vec![],
+            Ran::Done(Err(f)) => vec![Violation::new(f.clause, format!("Reopen/{}/symlinked-log-file", super::c08::mode_class(mode)), f.detail, case.clone())],
+            Ran::Panicked(m) => vec![Violation::new("panic", "symlinked-log-file", m, case.clone())],
+            Ran::Hung => vec![Violation::new("hang", "symlinked-log-file", String::new(), case.clone())],
+        };
+    }
     if let Some(u) = case["file_and_writer"].as_u64() {
         let mode = modes()[(u as usize).min(modes().len() - 1)];
         println!("replay C18: log_to_file_and_writer, mode {mode:?}");
